@@ -173,7 +173,7 @@ def layout(ctx, rule="C16.layout"):
         ok = not problems
         ctx.ob(rule, site, ok, "" if ok else f"{label}: {problems[0]}", role=role, line=line, detail=label)
 
-    N = 4
+    N = 5 if ctx.tier == "thorough" else 4
     # ---- dm() and trace() and all_fock_probs()
     f_dm = fs.lookup("dm")
     for n in range(1, N + 1):
